@@ -856,11 +856,26 @@ async fn op_revoke(h: &mut H, acc: &mut Acc, rng: &mut Rng, x: usize) {
         rng.pick(&cands).clone()
     };
     let ml = ModifyList::new_append(Attribute::KeyActionRevoke, Value::HexString(k.kid.clone()));
-    let r = h.sim(x).modify_uuid(obj, &ml).await;
-    h.sim(x).record("revoke", json!({"obj": obj.to_string(), "kid": k.kid, "usage": k.usage, "valid_from": k.valid_from}), &r);
+    // a third of the revocations are followed, inside the same write transaction, by another
+    // change of the same key object (a rotation, or the same revocation once more)
+    let follow = rng.below(6);
+    let r = match follow {
+        0 => {
+            let rot = ModifyList::new_append(Attribute::KeyActionRotate, Value::new_datetime_epoch(Duration::from_secs(now)));
+            h.sim(x).modify_uuid_seq(obj, &[ml, rot]).await
+        }
+        1 => h.sim(x).modify_uuid_seq(obj, &[ml.clone(), ml]).await,
+        _ => h.sim(x).modify_uuid(obj, &ml).await,
+    };
+    let shape = match follow { 0 => "then-rotate-in-same-transaction", 1 => "twice-in-same-transaction", _ => "alone" };
+    h.sim(x).record("revoke", json!({"obj": obj.to_string(), "kid": k.kid, "usage": k.usage, "valid_from": k.valid_from, "shape": shape}), &r);
     match r {
         Ok(()) => {
             let s = h.tick();
+            acc.count(&format!("revoke.shape.{shape}"));
+            if follow == 0 {
+                h.rotations.push((obj, s));
+            }
             h.keyops.push((x, obj, s, now));
             h.rev_origin.entry((obj, k.kid.clone())).or_insert((x, s, now));
             h.knows_rev[x].entry((obj, k.kid.clone())).or_insert((s, false));
